@@ -105,7 +105,9 @@ class StreamWriter(AbstractStreamWriter):
         transport = self._protocol.transport
         if transport is None or transport.is_closing():
             raise ClientConnectionResetError("Cannot write to closing transport")
-        transport.write(chunk)
+        # The transport may keep a reference to what it is given: do not
+        # hand it a buffer that the caller can change after we return.
+        transport.write(chunk if type(chunk) is bytes else bytes(chunk))
 
     def _writelines(
         self,
@@ -124,7 +126,10 @@ class StreamWriter(AbstractStreamWriter):
         if SKIP_WRITELINES or size < MIN_PAYLOAD_FOR_WRITELINES:
             transport.write(b"".join(chunks))
         else:
-            transport.writelines(chunks)
+            # As in _write(): no caller-owned buffer is left with the transport
+            transport.writelines(
+                tuple(c if type(c) is bytes else bytes(c) for c in chunks)
+            )
 
     def _write_chunked_payload(
         self, chunk: Union[bytes, bytearray, "memoryview[int]", "memoryview[bytes]"]
